@@ -190,7 +190,10 @@ def observe_io(graph, sd):
         order = sorted(objs2)
         rng.shuffle(order)
         first = {}
+        built = set()
+        owners = {x: {m for m in graph if x in graph[m]["pre"]} for x in graph}
         for n in order[:3]:
+            before = len(S.CALLS)
             i = objs2[n].instance(DirectoryContext(Path("/job")), objects=store)
             mp = {}
             matches(graph, n, i, mp, problems, "instance() with a shared store", instance=True)
@@ -198,12 +201,15 @@ def observe_io(graph, sd):
                 if m in first and first[m] is not o:
                     problems.append(f"instance() with a shared store: node {m} was built twice")
                 first.setdefault(m, o)
+            inst_node = {id(store.retrieve(id(o))): m for m, o in objs2.items() if store.retrieve(id(o)) is not None}
+            for kind, oid in S.CALLS[before:]:
+                m = inst_node.get(oid)
+                if kind == "execute" and m is not None and owners[m] and owners[m] <= built:
+                    problems.append(f"instance() with a shared store: pre-task {m} of already built objects was executed again")
+            built |= set(mp)
         posts2 = [i for k, i in S.CALLS if k == "post_init"]
-        execs2 = [i for k, i in S.CALLS if k == "execute"]
         if len(set(posts2)) != len(posts2):
             problems.append("instance() with a shared store: an object was post-initialised again by a later call")
-        if len(set(execs2)) != len(execs2):
-            problems.append("instance() with a shared store: a pre-task was executed again by a later call")
     except Exception as e:
         problems.append(f"instance() with a shared store: raised {e!r}"[:300])
 
